@@ -264,6 +264,13 @@ func singleDoor(x *Ctx) {
 					if o, _ := p.ErrorOutcome(); o == paths.Failure || o == paths.Delegated {
 						failing = true
 					}
+					// the body of a range-over-func loop: "return nil, err" is compiled into stores to the enclosing
+					// function's results and a false answer that stops the iteration
+					if !returnsError(f.Signature) && f.Parent() != nil {
+						if known, val, _, _ := p.BoolResult(0); known && !val {
+							failing = true
+						}
+					}
 				}
 				if !failing {
 					okA = false
